@@ -5,14 +5,22 @@ import Exetera.Model.SortIndex
   Model of `DataFrame.groupby` / `HDF5DataFrameGroupBy.count|min|max|first|last|distinct`, `DataFrame.drop_duplicates`
   (exetera/core/dataframe.py:693-753, 986-1259) and of `Session.aggregate_*` (session.py:636-756), on top of the span
   model (`Model/Spans.lean`, owned by C08) and the sort index (`Model/SortIndex.lean`).  The tree modelled is /repo with
-  the `fix:` patches D18, NC08b (and D19, NC08c) applied.
+  the `fix:` patches D18, NC08b (and D19, NC08c) and D20 applied (`Variant.repaired`); `Variant.asFound` is the tree before them.
+
+  `DataFrame.groupby` exists twice (fix D20): `groupbyStacked` is the code as found — the key columns are stacked into ONE
+  numpy array, which promotes columns of different dtypes (the per-column `cast` below) before the sortedness test and the
+  span kernel look at them; `groupbyCols` is the repaired code — every key column stays an array of its own dtype, the
+  sortedness test walks the columns with a mask of still undecided row pairs, the spans are the per-column spans merged
+  (`get_spans_for_field` folded with `_get_spans_for_2_fields_by_spans`). `groupby v` selects by `v`.
 
   Conventions
   * a key column is `(cast, data)`: `data : List Int` are the field's values (numbers as they are; fixed strings coded by
     their rank in bytewise order, which is all the kernels look at), `cast` is what `np.asarray([col₀, col₁, …])` does to
     the values of this column when the key columns are stacked into ONE numpy array: the identity when all key dtypes
     agree, int64 → float64 rounding when a float column is present, decimal text when a string column is present (D20).
-    The sortedness test and the spans see the cast values; the sort index and the written keys use the field data.
+    As found, the sortedness test and the spans see the cast values; the sort index and the written keys use the field
+    data. The repaired code never looks at `cast`: every column is compared in its own order, whatever its kind
+    (numbers of any dtype as they are, fixed and indexed strings rank-coded in bytewise / code-point order).
   * a target is a plain column (numeric / rank-coded fixed string) or an indexed string `(indices, values)`.
   * all subscripts of compiled kernels are checked (`getE`), so `… = .ok _` carries memory safety.
 -/
@@ -122,8 +130,8 @@ def nrows : List KeyCol → Nat
   | [] => 0
   | k :: _ => k.data.length
 
-/-- `DataFrame.groupby(by, hint_keys_is_sorted)` -/
-def groupby (v : Variant) (keys : List KeyCol) (hint : Bool) : Except Err Grouping :=
+/-- `DataFrame.groupby(by, hint_keys_is_sorted)` AS FOUND (finding D20): sortedness test and spans on the stacked array -/
+def groupbyStacked (v : Variant) (keys : List KeyCol) (hint : Bool) : Except Err Grouping :=
   match stack keys with
   | .error e => .error e
   | .ok stacked =>
@@ -146,6 +154,76 @@ def groupby (v : Variant) (keys : List KeyCol) (hint : Bool) : Except Err Groupi
             match getSpansForMultiFields v sortedStacked with
             | .error e => .error e
             | .ok sp => .ok ⟨some idx, sp⟩
+
+/-! ## DataFrame.groupby with fix D20: the key columns are compared one by one, each in its own dtype -/
+
+/-- `by_fields_data = [np.asarray(col.data[:]) for col in by]`: at least one key (`validate_selected_keys`); columns of
+    different lengths are rejected (`raise ValueError`). No cast: every column keeps its dtype. -/
+def readKeys (keys : List KeyCol) : Except Err (List (List Int)) :=
+  match keys with
+  | [] => .error (.valueError "Selected field names should not be empty list")
+  | k0 :: ks =>
+    if ks.all (fun k => k.data.length == k0.data.length) then .ok (keys.map (·.data))
+    else .error (.valueError "The fields to group by must all have the same length")
+
+/-- `d[:-1] <op> d[1:]` -/
+def adjacent (op : Int → Int → Bool) (d : List Int) : List Bool := List.zipWith op d.dropLast d.tail
+
+/-- `for d in by_fields_data:` of the sortedness test, `undecided[i]` = rows `i`, `i+1` agree on all columns seen so far:
+    `if np.any(undecided & (d[:-1] > d[1:])): is_sorted = False; break` then `undecided &= ~(d[:-1] < d[1:])` -/
+def sortedLoop : List Bool → List (List Int) → Bool
+  | _, [] => true
+  | undecided, d :: ds =>
+    if (List.zipWith (fun u g => u && g) undecided (adjacent (fun a b => decide (a > b)) d)).any id then false
+    else sortedLoop (List.zipWith (fun u l => u && !l) undecided (adjacent (fun a b => decide (a < b)) d)) ds
+
+/-- the sortedness test of the repaired `groupby`: `undecided = np.ones(max(len(by_fields_data[0]) - 1, 0), bool)`, the loop -/
+def keysSorted (cols : List (List Int)) : Bool :=
+  match cols with
+  | [] => true
+  | d0 :: _ => sortedLoop (List.replicate (d0.length - 1) true) cols
+
+/-- `[d[sorted_index] for d in by_fields_data]` -/
+def gatherCols (cols : List (List Int)) (idx : List Nat) : Except Err (List (List Int)) :=
+  match cols with
+  | [] => .ok []
+  | c :: cs =>
+    match SortIndex.gather c idx with
+    | .error e => .error e
+    | .ok g => SortIndex.consE g (gatherCols cs idx)
+
+/-- `spans = get_spans_for_field(by_fields_data[0]); for d in by_fields_data[1:]: spans = _get_spans_for_2_fields_by_spans(
+    spans, get_spans_for_field(d))` -/
+def colSpans (cols : List (List Int)) : Except Err (List Nat) :=
+  match cols with
+  | [] => .error (.oob "by_fields_data[0]")
+  | d0 :: ds => foldArraySpans (getSpansForField (fun x y => x != y) d0) ds
+
+/-- `DataFrame.groupby(by, hint_keys_is_sorted)` with fix D20 -/
+def groupbyCols (keys : List KeyCol) (hint : Bool) : Except Err Grouping :=
+  match readKeys keys with
+  | .error e => .error e
+  | .ok cols =>
+    if hint || keysSorted cols then
+      match colSpans cols with
+      | .error e => .error e
+      | .ok sp => .ok ⟨none, sp⟩
+    else
+      match SortIndex.datasetSortIndex cols (List.range (nrows keys)) with
+      | .error e => .error e
+      | .ok idx =>
+        match gatherCols cols idx with
+        | .error e => .error e
+        | .ok sortedCols =>
+          match colSpans sortedCols with
+          | .error e => .error e
+          | .ok sp => .ok ⟨some idx, sp⟩
+
+/-- `DataFrame.groupby(by, hint_keys_is_sorted)`: as found (stacked, D20) or repaired (column by column) -/
+def groupby (v : Variant) (keys : List KeyCol) (hint : Bool) : Except Err Grouping :=
+  match v with
+  | .asFound => groupbyStacked v keys hint
+  | .repaired => groupbyCols keys hint
 
 /-! ## HDF5DataFrameGroupBy -/
 
@@ -265,38 +343,47 @@ structure Out where
   vals : List Col
   deriving Repr, DecidableEq, Inhabited
 
+/-- `g.count(ddf)` for the group-by object `g` -/
+def countOf (keys : List KeyCol) (g : Grouping) : Except Err Out :=
+  match writeKeys g (keys.map (·.data)) with
+  | .error e => .error e
+  | .ok ks =>
+    match count g with
+    | .error e => .error e
+    | .ok c => .ok ⟨ks, [.ints c]⟩
+
+/-- `g.distinct(ddf)` -/
+def distinctOf (keys : List KeyCol) (g : Grouping) : Except Err Out :=
+  match writeKeys g (keys.map (·.data)) with
+  | .error e => .error e
+  | .ok ks => .ok ⟨ks, []⟩
+
+/-- `g.<agg>(targets, ddf)` -/
+def aggOf (v : Variant) (agg : Agg) (keys : List KeyCol) (g : Grouping) (targets : List Target) : Except Err Out :=
+  match writeKeys g (keys.map (·.data)) with
+  | .error e => .error e
+  | .ok ks =>
+    match aggTargets v agg g targets with
+    | .error e => .error e
+    | .ok cs => .ok ⟨ks, cs⟩
+
 /-- `df.groupby(by, hint).count(ddf)` -/
 def groupbyCount (v : Variant) (keys : List KeyCol) (hint : Bool) : Except Err Out :=
   match groupby v keys hint with
   | .error e => .error e
-  | .ok g =>
-    match writeKeys g (keys.map (·.data)) with
-    | .error e => .error e
-    | .ok ks =>
-      match count g with
-      | .error e => .error e
-      | .ok c => .ok ⟨ks, [.ints c]⟩
+  | .ok g => countOf keys g
 
 /-- `df.groupby(by, hint).distinct(ddf)` = `df.drop_duplicates(by, ddf, hint)` -/
 def groupbyDistinct (v : Variant) (keys : List KeyCol) (hint : Bool) : Except Err Out :=
   match groupby v keys hint with
   | .error e => .error e
-  | .ok g =>
-    match writeKeys g (keys.map (·.data)) with
-    | .error e => .error e
-    | .ok ks => .ok ⟨ks, []⟩
+  | .ok g => distinctOf keys g
 
 /-- `df.groupby(by, hint).<agg>(targets, ddf)` -/
 def groupbyAgg (v : Variant) (agg : Agg) (keys : List KeyCol) (hint : Bool) (targets : List Target) : Except Err Out :=
   match groupby v keys hint with
   | .error e => .error e
-  | .ok g =>
-    match writeKeys g (keys.map (·.data)) with
-    | .error e => .error e
-    | .ok ks =>
-      match aggTargets v agg g targets with
-      | .error e => .error e
-      | .ok cs => .ok ⟨ks, cs⟩
+  | .ok g => aggOf v agg keys g targets
 
 /-! ## Session.aggregate_* -/
 
